@@ -146,17 +146,31 @@ Qed.
 Print Assumptions C11_out_length.
 
 (* ---- 5. no memory of the caller is written: neither in nor the spare capacity behind it ------------------------ *)
-(* [in] is a slice header into a heap of arrays; for every helper body [core] (the four above included),
-   every array that exists when the helper is called - in particular the whole backing array of in - is
-   unchanged afterwards, and the result is the one computed from the bytes of in *)
-Theorem C11_caller_memory_untouched : forall core p h key in_ mode,
+(* [in] is a slice header into a heap of arrays.  The heap-level model of the four helpers (ModesModel:
+   Sm4Ecb_mem .. Sm4OFB_mem) performs pkcs7Padding's make/copy/append and the helpers' own writes
+   out = make(len(inData)); copy(out[i*16:i*16+16], x) on the heap, and reads block i of the input from the heap
+   as it is in iteration i.  For each of the four helpers: every array that exists when it is called - in
+   particular the whole backing array of in, spare capacity included - is unchanged afterwards (and no shorter
+   heap results), and the result is the value-level helper on the bytes of in.  (Destinations that are made and
+   used only inside a helper - iv, out_tmp, K, cipherBlock, plainBlock, shiftIV - are modelled on values.) *)
+Theorem C11_caller_memory_untouched : forall E D p h key in_ mode,
   slice_valid h in_ ->
-  (forall a, a < length h -> array (fst (helper_mem core p h key in_ mode)) a = array h a) /\
-  snd (helper_mem core p h key in_ mode) = helper core p key (read h in_) mode.
+  let frame (r : outcome (heap * list N)) :=
+    forall h2 o, r = Ok (h2, o) -> length h <= length h2 /\ forall a, a < length h -> array h2 a = array h a in
+  (omap snd (Sm4Ecb_mem E D p h key in_ mode) = Sm4Ecb E D p key (read h in_) mode /\ frame (Sm4Ecb_mem E D p h key in_ mode)) /\
+  (omap snd (Sm4Cbc_mem E D p h key in_ mode) = Sm4Cbc E D p key (read h in_) mode /\ frame (Sm4Cbc_mem E D p h key in_ mode)) /\
+  (omap snd (Sm4CFB_mem E p h key in_ mode) = Sm4CFB E p key (read h in_) mode /\ frame (Sm4CFB_mem E p h key in_ mode)) /\
+  (omap snd (Sm4OFB_mem E p h key in_ mode) = Sm4OFB E p key (read h in_) mode /\ frame (Sm4OFB_mem E p h key in_ mode)).
 Proof.
-  intros core p h key in_ mode Hv. split.
-  - intros a Ha. apply helper_mem_frame. exact Ha.
-  - apply helper_mem_value. exact Hv.
+  intros E D p h key in_ mode Hv. cbv zeta.
+  assert (K : forall cm c, core_mem_ok cm c ->
+              omap snd (helper_mem cm p h key in_ mode) = helper c p key (read h in_) mode /\
+              (forall h2 o, helper_mem cm p h key in_ mode = Ok (h2, o) ->
+                 length h <= length h2 /\ forall a, a < length h -> array h2 a = array h a)).
+  { intros cm c Hok. destruct (helper_mem_spec cm c p h key in_ mode Hok Hv) as [H1 H2]. split; [exact H1|].
+    intros h2 o Hr. exact (H2 h2 o Hr). }
+  split; [exact (K _ _ (Sm4Ecb_core_mem_ok E D))|]. split; [exact (K _ _ (Sm4Cbc_core_mem_ok E D))|].
+  split; [exact (K _ _ (Sm4CFB_core_mem_ok E))|exact (K _ _ (Sm4OFB_core_mem_ok E))].
 Qed.
 Print Assumptions C11_caller_memory_untouched.
 
@@ -276,13 +290,19 @@ Example C11_example_roundtrips :
   Sm4Ecb E D init_pkg ex_key A1_key true = Ok (A1_cipher ++ sm4_encrypt_block ex_key (repeat 16%N 16)).
 Proof. vm_compute. repeat split; reflexivity. Qed.
 
-(* a slice with spare capacity: in = arr[2:5] of an 11-byte array; the array is unchanged by encryption *)
+(* a slice with spare capacity: in = arr[2:5] of an 11-byte array; encryption and decryption leave the array alone *)
 Example C11_example_memory :
   let h := [[9;9;1;2;3;7;7;7;7;7;7]%N] in
   let in_ := mkSlice 0 2 3 9 in
-  slice_valid h in_ /\
-  array (fst (helper_mem (Sm4Cbc_core sm4_encrypt_block sm4_decrypt_block) init_pkg h ex_key in_ true)) 0 = [9;9;1;2;3;7;7;7;7;7;7]%N /\
-  read h in_ = [1;2;3]%N.
+  slice_valid h in_ /\ read h in_ = [1;2;3]%N /\
+  match Sm4Cbc_mem sm4_encrypt_block sm4_decrypt_block init_pkg h ex_key in_ true with
+  | Ok (h2, c) => firstn 1 h2 = h /\ length c = 16 /\
+                  match Sm4OFB_mem sm4_encrypt_block init_pkg (h2 ++ [c]) ex_key (mkSlice (length h2) 0 16 16) false with
+                  | Ok (h3, _) => firstn (S (length h2)) h3 = h2 ++ [c]
+                  | _ => False
+                  end
+  | _ => False
+  end.
 Proof. vm_compute. repeat split; repeat constructor. Qed.
 
 (* ciphertexts that are not what encryption produces: empty result, no error (recorded, not a violation) *)
